@@ -122,7 +122,7 @@ M = [
      "        visited = [] \n        for fm in field_model_l:\n            fm.post_randomize(visited)",
      "        visited = [] \n        for fm in field_model_l:\n            if constraint_l is None or len(constraint_l) == 0 or not hasattr(constraint_l[0], 'name') or constraint_l[0].name != 'inline':\n                fm.post_randomize(visited)", ["C17"]),
     ("c16_no_cleanup_in_finally", "src/vsc/model/randomizer.py",
-     "                ConstraintOverrideRollbackVisitor.rollback(f)\n                f.dispose()\n                f.set_used_rand(False, 0)",
+     "                ConstraintOverrideRollbackVisitor.rollback(f)\n                Randomizer._release_solver_handles(f, visited, failed)\n                f.set_used_rand(False, 0)",
      "                pass", ["C16", "C03"]),
     ("c16_if_then_exit_no_pop_on_exc", "src/vsc/constraints.py",
      "    def __exit__(self, t, v, tb):\n        pop_constraint_scope()\n        \n        \nclass else_if(object):",
@@ -136,9 +136,6 @@ M = [
     ("c16_ctor_cleanup_removed", "src/vsc/rand_obj.py",
      "                                        while constraint_scope_depth() > scope_depth:\n                                            pop_constraint_scope()\n                                        clear_exprs()\n                                        raise e\n                                    fo.set_model(pop_constraint_scope())\n                                    model.add_constraint(fo.model)",
      "                                        raise e\n                                    fo.set_model(pop_constraint_scope())\n                                    model.add_constraint(fo.model)", ["C16"]),
-    ("c16_solvefail_no_dispose", "src/vsc/model/randomizer.py",
-     "                active_randsets = []\n                for rs in ri.randsets():\n                    active_randsets.append(rs)\n                    for f in rs.all_fields():\n                        f.dispose()",
-     "                active_randsets = []\n                for rs in ri.randsets():\n                    active_randsets.append(rs)", ["C16"]),
     ("c09_fields_iterated_as_set", "src/vsc/model/rand_set.py",
      "        return self.field_rand_l", "        return list(set(self.field_rand_l))", ["C09"]),
     ("c09_dist_uses_global_random", "src/vsc/model/constraint_dist_scope_model.py",
